@@ -12,7 +12,8 @@ ENTRIES = ['_ZNK6engine8Position11is_in_checkENS_5ColorE', '_ZNK6engine8Position
 def check(ctx):
     m = ctx.module(TUS)
     tables = ctx.dump_tables()
-    c, h, info = ctx.translate(m, ENTRIES, stubs=c01.SLIDERS, overrides=tables, globals_=['_ZN6engine9MOVE_LISTE'])
+    import shutil
+    c, h, info = ctx.translate(m, ENTRIES, stubs=c01.SLIDERS + ['_ZN6engine14generate_movesERKNS_8PositionENS_5ColorEPj'], overrides=tables)
     layout.field_header(ctx, m, [layout.POSITION_FIELDS, layout.HASHKEY_FIELDS], ['position.h'])
     quick = ctx.tier == 'quick'
     chk = [material.parse(x) for x in (('KPkr', 'KNkq', 'KBkp') if quick else ('KPkr', 'KNkq', 'KBkp', 'KRkn', 'KQkb', 'KPkp', 'KRRkq', 'KBNkr'))]
@@ -30,14 +31,13 @@ def check(ctx):
         H.append('void %s(void) { static const uint32_t mat[] = %s; mate_case(mat, %d, %d); }' % (fn, material.cinit(mat), len(mat), side))
         names.append((fn, {'material': material.name(mat), 'side_to_move': 'wb'[side], 'predicate': 'is_checkmate / is_stalemate'}, mat))
     hp = ctx.path('h_c07.c'); open(hp, 'w').write('\n'.join(H) + '\n')
-    D = ['S_USE_BITBOARD_ORACLE', 'HMAX=%d' % (12 if quick else 100)]
+    D = ['S_USE_BITBOARD_ORACLE', 'MATE_LOGIC', 'HMAX=%d' % (12 if quick else 100)]
     gb = ctx.gotocc('c07', [c, hp], D); gbw = ctx.gotocc('c07w', [c, hp], D + ['WITNESS'])
     qs, ws = [], []
     to = 900 if quick else 2700
     for fn, smp, mat in names:
         if ctx.only and not re.search(ctx.only, fn): continue
         us = mc.unwindset(len(mat))
-        if fn.startswith('h_mate'): us.update(c01.loop_bounds(ctx, gb, mat))
         us.update({'h_oracles_agree.0': 65, 'h_repetition.0': 101, 'h_repetition.1': 101, 'h_material.0': 14, 'h_is_draw.0': 7, 'h_is_draw.1': 14,
                    '_ZNK6engine8Position11is_repeatedEv.0': 101, '_ZNK6engine8Position20threefold_repetitionEv.0': 101})
         qs.append(Query(fn, gb, fn, us, timeout=to, sample=smp, max_unwind={'*': 102}))
@@ -59,6 +59,6 @@ def check(ctx):
     return report.finish(ctx, res, wit, replay=replay,
         assumptions=['slider_attack<> by contract (C11); positions RI + one-ply retro-legal',
                      'repetition predicates are checked against arbitrary key histories; that keys identify positions is C04, that do_move/undo_move maintain the history is C02/C03',
-                     'mate/stalemate use the move generator (C01 bounds apply)'],
+                     'is_checkmate/is_stalemate are checked with the move generator replaced by a stub returning an arbitrary number of moves; that an empty list means no legal move exists is C01'],
         bounds={'is_in_check material': [material.name(x) for x in chk], 'mate/stalemate': ['%s/%s' % (material.name(x), 'wb'[s]) for x, s in mate],
                 'history length': '1..%d keys (longer histories: same loop, outside the unwinding bound)' % (12 if quick else 100), 'clock': '0..255', 'piece counts': 'all vectors with 0..10 per kind'})
